@@ -731,7 +731,6 @@ Definition omm_eqb (a b : option (N * N)) : bool :=
 Definition abs_eqb (a b : td_abs) : bool :=
   (a_k a =? a_k b)%N && Bool.eqb (a_rev a) (a_rev b) && omm_eqb (a_minmax a) (a_minmax b) &&
   list_eqb pair_eqb (a_cs a) (a_cs b) && nlist_eqb (a_buf a) (a_buf b).
-Definition sumwN (cs : list (N * N)) : N := fold_right (fun c acc => (snd c + acc)%N) 0%N cs.
 
 Definition image_ok (s : spec) (B : list Z) : bool :=
   let bs := map zN B in
@@ -843,9 +842,9 @@ Fixpoint foreign_from (st : fslots) (ops : list zop) (obs : list (list Z)) : boo
   end.
 Definition foreign_ok (c : case) : bool := foreign_from (repeat None 8) (c_ops c) (c_obs c).
 
-(* [nopanic_ok]: C14 / C17 (oracle 6): no observation is a panic or a runaway-allocation marker *)
-Definition nopanic_ok (c : case) : bool := no_panic_oracle c.
+(* [no_panic]: C14 / C17 (oracle 6): no observation is a panic or a runaway-allocation marker *)
+Definition no_panic (c : case) : bool := no_panic_oracle c.
 
 (* oracles by number (tools/families/tdigest.py: ORACLES) *)
 Definition oracles : list (Z * (case -> bool)) :=
-  [(0, prop_ok); (1, tie_ok); (2, c15_ok); (3, codec_ok); (4, twin_ok); (5, foreign_ok); (6, nopanic_ok)].
+  [(0, prop_ok); (1, tie_ok); (2, c15_ok); (3, codec_ok); (4, twin_ok); (5, foreign_ok); (6, no_panic)].
